@@ -42,6 +42,9 @@ def scenario(args):
         rn = 'RECS' + ('.TXT' if '.' in n1 else '')
         cli(['put', '-d', p, '-f', rn, '-t', 'rec'], stdin=records_json(9), env=env)
         cli(['put', '-d', p, '-f', 'RECX' + ('.TXT' if '.' in n1 else ''), '-t', 'rec'], stdin=records_json(14, 100), env=env)
+        # a sparse file: several chunks far beyond the number of chunks present
+        cli(['put', '-d', p, '-f', 'RECZ' + ('.TXT' if '.' in n1 else ''), '-t', 'rec'],
+            stdin=json.dumps({"fimg_type": "rec", "record_length": 64, "records": {str(r): [f"FAR{r}"] for r in (0, 40, 90, 200, 333)}}).encode(), env=env)
         if dirs:
             cli(['mkdir', '-d', p, '-f', 'SUB'], env=env)
             cli(['put', '-d', p, '-f', 'SUB/INNER' + ('.TXT' if '.' in n1 else ''), '-t', 'txt'], stdin=b'INNER\n', env=env)
@@ -55,6 +58,11 @@ def scenario(args):
                ('stat', ['stat', '-d', p], None), ('geometry', ['geometry', '-d', p], None), ('glob', ['glob', '-d', p, '-f', '*'], None),
                ('get any', ['get', '-d', p, '-f', n1, '-t', 'any'], None), ('get txt', ['get', '-d', p, '-f', n1, '-t', 'txt'], None),
                ('get rec', ['get', '-d', p, '-f', rn, '-t', 'rec', '-l', '64'], None), ('get rec any', ['get', '-d', p, '-f', rn, '-t', 'any'], None),
+               ('get sparse raw', ['get', '-d', p, '-f', 'RECZ' + ('.TXT' if '.' in n1 else ''), '-t', 'raw'], None),
+               ('get sparse txt', ['get', '-d', p, '-f', 'RECZ' + ('.TXT' if '.' in n1 else ''), '-t', 'txt'], None),
+               ('get sparse any', ['get', '-d', p, '-f', 'RECZ' + ('.TXT' if '.' in n1 else ''), '-t', 'any'], None),
+               ('get sparse rec', ['get', '-d', p, '-f', 'RECZ' + ('.TXT' if '.' in n1 else ''), '-t', 'rec', '-l', '64'], None),
+               ('get rec raw', ['get', '-d', p, '-f', rn, '-t', 'raw'], None),
                ('get meta', ['get', '-d', p, '-t', 'meta'], None), ('get block', ['get', '-d', p, '-f', '2', '-t', 'block'], None),
                ('mget', ['mget', '-d', p], json.dumps([n1, rn]).encode())]
     for name, argv, stdin in queries:
@@ -70,6 +78,8 @@ def lang_scenarios(reps, env):
     cases = [('tokenize atxt', ['tokenize', '-t', 'atxt', '-a', '2049'], APPLESOFT), ('tokenize itxt', ['tokenize', '-t', 'itxt'], INTEGER), ('tokenize mtxt', ['tokenize', '-t', 'mtxt'], MERLIN),
              ('minify', ['minify', '-t', 'atxt', '--level', '3'], APPLESOFT), ('renumber', ['renumber', '-t', 'atxt', '-b', '10', '-e', '60', '-f', '100', '-s', '5'], APPLESOFT),
              ('verify', ['verify', '-t', 'atxt'], APPLESOFT), ('asm', ['asm'], MERLIN),
+             ('verify with diagnostics', ['verify', '-t', 'atxt'], b'10 COUNT = 1: COUNTER = 2: COLD = 3: COT = 4\n20 HEIGHT = HEN + HEX1: PRINT COUNT,COUNTER,COLD\n30 GOTO 99\n'),
+             ('verify merlin with diagnostics', ['verify', '-t', 'mtxt'], b' ORG $300\nA LDA B\nA STA C\n JMP NOWHERE\n'),
              ('dasm', ['dasm', '-p', '6502', '--mx', '11', '-o', '768'], bytes([0xa9, 0, 0x8d, 0, 0xc0, 0x4c, 0, 3, 0x20, 0x58, 0xfc, 0x60] * 8)),
              ('pack rec', ['pack', '-t', 'rec', '-o', 'prodos', '-f', 'R'], records_json(12)),
              ('pack rec straddling prodos', ['pack', '-t', 'rec', '-o', 'prodos', '-f', 'R'], records_json(14, 100)),
@@ -79,7 +89,7 @@ def lang_scenarios(reps, env):
         outs = set()
         for r in range(reps):
             rc, so, se = cli(argv, stdin=stdin, env=env)
-            outs.add((rc, so))
+            outs.add((rc, so, se if name.startswith('verify') else b''))      # diagnostics are printed on stderr
         out.append((f"lang {name}", len(outs) == 1, f"{len(outs)} different outputs in {reps} runs of: a2kit {' '.join(argv)}"))
     # detokenize what tokenize produced
     for t1, t2, src in [('atxt', 'atok', APPLESOFT), ('itxt', 'itok', INTEGER)]:
